@@ -16,12 +16,27 @@
 // The oracle is three-valued. MustServe is only demanded for the canonical
 // fully-correct exchange (non-vacuity baseline); everything the statement leaves
 // open is Either.
+//
+// Fault parts (<router>-fault): the alphabet additionally contains, for every
+// callback and exchange operation enabled in a state, the variants
+// "<op>!fault=<StorageMethod>[#n][/deadline]" in which exactly one storage call
+// of that request fails (the n-th call of the method; every call position of
+// the fault-free journal of <op> in that state is a variant). A faulted request
+// that answers an error owes nothing afterwards (request / code become
+// "unsure": later serve obligations are Either); a faulted request that answers
+// with tokens counts like any success: all conjuncts must hold and the code is
+// redeemed from then on.
+//
+// Channel parts (<router>-chan): the token request carries grant_type (gtq) or
+// all parameters (allq) in the URL query instead of the body.
 package c04
 
 import (
+	"context"
 	"crypto/sha256"
 	"encoding/base64"
 	"encoding/json"
+	"errors"
 	"fmt"
 	"net/url"
 	"slices"
@@ -117,8 +132,20 @@ func challengeOf(ch string, slot int) string {
 
 type caller struct {
 	label  string // op label component
-	client string
+	client string // the client the caller authenticates as (public: identifies as)
 	cred   string // right | wrong | none
+	// claimOwner: the caller authenticates with its own (private_key_jwt)
+	// assertion and ADDITIONALLY sends a form client_id naming another client:
+	// the owner of the presented code
+	claimOwner bool
+}
+
+// claimed is the foreign client_id a claimOwner caller puts into the form
+func (c caller) claimed(owner string) string {
+	if owner == "" || owner == c.client {
+		return "web"
+	}
+	return owner
 }
 
 func (c caller) public() bool { return c.client == "pub" }
@@ -145,7 +172,10 @@ func assertions() (string, string) {
 }
 
 // apply puts the caller's identification / credentials into the request
-func (c caller) apply(cfg *refstore.Config, f url.Values, h map[string]string) {
+func (c caller) apply(cfg *refstore.Config, f url.Values, h map[string]string, owner string) {
+	if c.claimOwner {
+		defer f.Set("client_id", c.claimed(owner))
+	}
 	cl := cfg.Clients[c.client]
 	if cl == nil { // anonymous caller: no identification at all
 		return
@@ -188,7 +218,15 @@ func (c caller) apply(cfg *refstore.Config, f url.Values, h map[string]string) {
 func callersFor(clients ...string) []caller {
 	var out []caller
 	for _, c := range clients {
+		if c == "jwt+owner" { // valid assertion of jwt + client_id of the code's owner
+			out = append(out, caller{label: c + "/right", client: "jwt", cred: "right", claimOwner: true})
+			continue
+		}
 		creds := []string{"right", "wrong", "none"}
+		if cl, cr, ok := strings.Cut(c, "/"); ok { // one explicit credential variant
+			out = append(out, caller{label: c, client: cl, cred: cr})
+			continue
+		}
 		switch c {
 		case "pub", "web2", "api":
 			creds = []string{"right"} // public: nothing to prove; web2 / api (no code grant) only play a foreign authenticated client
@@ -212,6 +250,10 @@ type mreq struct {
 	Slot   int
 	Done   bool // reference automaton: user has authenticated
 	Gone   bool // reference automaton: consumed by a successful exchange
+	// Unsure: a request that referred to this authorization request (callback, or
+	// exchange of one of its codes) had a storage fault and answered an error;
+	// nothing is owed for it any more (it may or may not have been consumed)
+	Unsure bool
 }
 
 type mcode struct {
@@ -225,10 +267,11 @@ type S struct {
 	St    *refstore.State
 	Reqs  []mreq
 	Codes []mcode
+	NF    int // faulted operations in this history so far
 }
 
 func (s S) clone() S {
-	return S{St: s.St.Clone(), Reqs: slices.Clone(s.Reqs), Codes: slices.Clone(s.Codes)}
+	return S{St: s.St.Clone(), Reqs: slices.Clone(s.Reqs), Codes: slices.Clone(s.Codes), NF: s.NF}
 }
 
 // ---------------------------------------------------------------------------
@@ -246,13 +289,160 @@ type part struct {
 	maxPerReq   int // codes per request
 	maxCodes    int
 	depth       int
+	chans       []string // parameter channels of the token request beyond "body": gtq, allq
+	maxFaults   int      // faulted operations per history (0: the alphabet has no faulty operations)
+	kinds       []string // error kinds of an injected storage failure: plain, deadline
+
+	c      *engine.Check
+	probes chan *rig.Rig // rigs for the fault-free probe runs of ops()
+	mu     sync.Mutex
+	fcov   map[string]int // "<op kind> <method> <kind> -> <outcome>" -> executions with that fault fired
 }
 
 func (p *part) routerName() string {
 	return rig.Routers[p.router]
 }
 
+// ---------------------------------------------------------------------------
+// faulty operations
+
+const faultMark = "!fault="
+
+// faultPlan makes exactly one storage call of the current request fail: the
+// occ-th (1-based) call of method.
+type faultPlan struct {
+	method string
+	occ    int
+	kind   string
+	seen   int
+	fired  bool
+}
+
+func mkErr(kind string) error {
+	if kind == "deadline" {
+		return context.DeadlineExceeded
+	}
+	return errors.New("c04: injected storage failure")
+}
+
+func (f *faultPlan) fn(idx int, method string) error {
+	if method != f.method {
+		return nil
+	}
+	f.seen++
+	if f.seen == f.occ {
+		f.fired = true
+		return mkErr(f.kind)
+	}
+	return nil
+}
+
+// splitFault separates "<op>!fault=<Method>[#n][/kind]" into op and plan
+func splitFault(op string) (string, *faultPlan, error) {
+	base, suffix, ok := strings.Cut(op, faultMark)
+	if !ok {
+		return op, nil, nil
+	}
+	fp := &faultPlan{occ: 1, kind: "plain"}
+	suffix, kind, ok := strings.Cut(suffix, "/")
+	if ok {
+		if kind != "deadline" && kind != "plain" {
+			return base, nil, fmt.Errorf("unknown error kind %q", kind)
+		}
+		fp.kind = kind
+	}
+	m, n, ok := strings.Cut(suffix, "#")
+	if ok {
+		v, err := strconv.Atoi(n)
+		if err != nil || v < 1 {
+			return base, nil, fmt.Errorf("bad occurrence %q", n)
+		}
+		fp.occ = v
+	}
+	if m == "" {
+		return base, nil, errors.New("fault without storage method")
+	}
+	fp.method = m
+	return base, fp, nil
+}
+
+// probe runs every op of cand fault-free from (a clone of) s and returns the
+// storage methods each of them called, in order.
+func (p *part) probe(s S, cand []string) [][]string {
+	out := make([][]string, len(cand))
+	W := engine.Workers()
+	p.mu.Lock()
+	if p.probes == nil {
+		p.probes = make(chan *rig.Rig, W)
+		for i := 0; i < W; i++ {
+			p.probes <- p.newRig()
+		}
+	}
+	p.mu.Unlock()
+	var wg sync.WaitGroup
+	next := make(chan int, len(cand))
+	for i := range cand {
+		next <- i
+	}
+	close(next)
+	for w := 0; w < min(W, len(cand)); w++ {
+		wg.Add(1)
+		go func() {
+			defer wg.Done()
+			r := <-p.probes
+			defer func() { p.probes <- r }()
+			for i := range next {
+				ns := s.clone()
+				r.Core.Reset(ns.St)
+				if pan := engine.Bubble(p.c.T, stepOffset, func() { p.exec(r, &ns, cand[i], nil) }); pan != "" {
+					p.c.Internal("probe panicked: " + pan)
+				}
+				for _, j := range r.Core.JournalCopy() {
+					out[i] = append(out[i], j.Method)
+				}
+			}
+		}()
+	}
+	wg.Wait()
+	return out
+}
+
+// ops: the enabled fault-free operations, then (while the history has fewer than
+// maxFaults faulted operations) for every enabled callback / exchange operation
+// one variant per storage call of its fault-free journal and error kind.
 func (p *part) ops(s S) []string {
+	base := p.baseOps(s)
+	if s.NF >= p.maxFaults {
+		return base
+	}
+	var cand []string
+	for _, op := range base {
+		if op[0] == 'C' || op[0] == 'X' {
+			cand = append(cand, op)
+		}
+	}
+	out := base
+	for i, j := range p.probe(s, cand) {
+		occ := map[string]int{}
+		for _, m := range j {
+			occ[m]++
+			l := cand[i] + faultMark + m
+			if occ[m] > 1 {
+				l += "#" + strconv.Itoa(occ[m])
+			}
+			for _, k := range p.kinds {
+				if k == "plain" {
+					out = append(out, l)
+				} else {
+					out = append(out, l+"/"+k)
+				}
+			}
+		}
+	}
+	return out
+}
+
+func (p *part) baseOps(s S) []string {
 	var ops []string
 	alive := 0
 	for _, r := range s.Reqs {
@@ -312,6 +502,9 @@ func (p *part) ops(s S) []string {
 			for _, u := range us {
 				for _, v := range vers {
 					ops = append(ops, "X:"+kl+":"+ca.label+":"+u+":"+v)
+					for _, ch := range p.chans {
+						ops = append(ops, "X:"+kl+":"+ca.label+":"+u+":"+v+":"+ch)
+					}
 				}
 			}
 		}
@@ -340,22 +533,44 @@ func (p *part) newStep(c *engine.Check) func(int) func(S, string) (S, engine.Res
 	return func(int) func(S, string) (S, engine.Result) {
 		r := p.newRig()
 		return func(s S, op string) (S, engine.Result) {
+			base, fp, err := splitFault(op)
+			if err != nil {
+				c.Internal("bad operation label " + op + ": " + err.Error())
+				return s, engine.Result{Rule: "internal", Outcome: "bad-op"}
+			}
 			ns := s.clone()
 			r.Core.Reset(ns.St)
+			if fp != nil {
+				r.Core.Fault = fp.fn
+				ns.NF++
+			}
 			var res engine.Result
-			pan := engine.Bubble(c.T, stepOffset, func() { res = p.exec(r, &ns, op) })
+			pan := engine.Bubble(c.T, stepOffset, func() { res = p.exec(r, &ns, base, fp) })
+			r.Core.Fault = nil
 			if pan != "" { // a panic outside the served request = harness problem
 				c.Internal("step panicked: " + pan)
 				return s, engine.Result{Rule: "internal", Outcome: "panic"}
+			}
+			if fp != nil {
+				if !fp.fired { // ops() only offers calls of the fault-free journal: the prefix up to the fault cannot differ
+					c.Internal("fault did not fire: " + op)
+					return s, engine.Result{Rule: "internal", Outcome: "fault-not-fired"}
+				}
+				p.mu.Lock()
+				p.fcov[base[:1]+" "+fp.method+" "+fp.kind+" -> "+res.Outcome]++
+				p.mu.Unlock()
 			}
 			return ns, res
 		}
 	}
 }
 
-func (p *part) exec(r *rig.Rig, s *S, op string) engine.Result {
+// exec performs the fault-free operation op; fp (may be nil) is the fault plan
+// installed for it.
+func (p *part) exec(r *rig.Rig, s *S, op string, fp *faultPlan) engine.Result {
 	f := strings.Split(op, ":")
 	rn := p.routerName()
+	faulted := func() bool { return fp != nil && fp.fired }
 	switch f[0] {
 	case "A":
 		client, ch, slot := f[1], f[2], len(s.Reqs)
@@ -377,6 +592,9 @@ func (p *part) exec(r *rig.Rig, s *S, op string) engine.Result {
 	case "L":
 		i, _ := strconv.Atoi(f[1])
 		if err := r.Core.Login(s.Reqs[i].ID, slotUser[s.Reqs[i].Slot]); err != nil {
+			if s.Reqs[i].Unsure { // an earlier faulted request may have consumed it
+				return engine.OK("login-after-fault", "error")
+			}
 			return engine.Bad("login", "error", "C04/baseline-refused/"+rn+"/login", "login UI could not complete a live request: "+err.Error())
 		}
 		s.Reqs[i].Done = true
@@ -392,7 +610,22 @@ func (p *part) exec(r *rig.Rig, s *S, op string) engine.Result {
 		if code != "" {
 			s.Codes = append(s.Codes, mcode{Code: code, Req: i, IssuedDone: rq.Done})
 		}
+		if faulted() {
+			// one storage call of this callback failed: an error answer is fine and
+			// owes nothing afterwards; a code is tracked like any other code
+			if code == "" {
+				s.Reqs[i].Unsure = true
+				return engine.OK("callback-faulted", "no-code")
+			}
+			if rq.Done {
+				return engine.OK("callback-faulted", "code")
+			}
+			return engine.OK("callback-faulted-incomplete", "code")
+		}
 		if rq.Done {
+			if code == "" && rq.Unsure {
+				return engine.OK("callback-after-fault", "no-code")
+			}
 			if code == "" {
 				return engine.Bad("callback-completed", obsClass(resp), "C04/baseline-refused/"+rn+"/callback",
 					fmt.Sprintf("callback of a completed request produced no code: %d %s", resp.Status, clip(resp.Body)))
@@ -406,7 +639,7 @@ func (p *part) exec(r *rig.Rig, s *S, op string) engine.Result {
 		}
 		return engine.OK("callback-incomplete", "no-code")
 	case "X":
-		return p.exchange(r, s, f)
+		return p.exchange(r, s, f, fp)
 	}
 	return engine.Result{Rule: "internal", Outcome: "unknown-op"}
 }
@@ -419,7 +652,7 @@ type verdict struct {
 	class  string // input class for the signature
 }
 
-func (p *part) judge(s *S, k int, ca caller, uri, ver string) verdict {
+func (p *part) judge(s *S, k int, ca caller, uri, ver, channel string) verdict {
 	if k < 0 {
 		return verdict{"refuse", "x-refuse-unknown-code", "unknown-code", "garbage-code"}
 	}
@@ -440,13 +673,24 @@ func (p *part) judge(s *S, k int, ca caller, uri, ver string) verdict {
 	if rq.Gone {
 		either = "x-either-sibling-code-redeemed"
 	}
-	// client
+	if rq.Unsure {
+		either = "x-either-after-faulted-request"
+	}
+	// client: the AUTHENTICATED one counts, whatever client_id the form claims
 	if ca.client != rq.Client {
 		cl := "other-client"
 		if !ca.credOK() {
 			cl = "unauthenticated"
+		} else if ca.claimOwner {
+			cl = "assertion-with-owner-client-id"
 		}
 		return verdict{"refuse", "x-refuse-client", "client", cl}
+	}
+	if ca.claimOwner { // authenticated as the owner, but the form names somebody else
+		either = "x-either-assertion-with-foreign-client-id"
+	}
+	if channel != "body" { // RFC 6749 4.1.3: parameters belong into the body; serving them from the query is left open
+		either = "x-either-query-channel"
 	}
 	if !ca.credOK() {
 		return verdict{"refuse", "x-refuse-client", "client", "unauthenticated"}
@@ -509,7 +753,7 @@ func (p *part) verifier(rq mreq, ver string) string {
 	return ""
 }
 
-func (p *part) exchange(r *rig.Rig, s *S, f []string) engine.Result {
+func (p *part) exchange(r *rig.Rig, s *S, f []string, fp *faultPlan) engine.Result {
 	rn := p.routerName()
 	k := -1
 	if f[1] != "g" && f[1] != "e" {
@@ -519,8 +763,11 @@ func (p *part) exchange(r *rig.Rig, s *S, f []string) engine.Result {
 	if !ok || k >= len(s.Codes) {
 		return engine.Result{Rule: "internal", Outcome: "bad-op"}
 	}
-	uri, ver := f[3], f[4]
-	v := p.judge(s, k, ca, uri, ver)
+	uri, ver, channel := f[3], f[4], "body"
+	if len(f) > 5 {
+		channel = f[5]
+	}
+	v := p.judge(s, k, ca, uri, ver, channel)
 
 	// build the request
 	codeStr := "Z2FyYmFnZS1jb2RlLW5ldmVyLWlzc3VlZA"
@@ -545,14 +792,41 @@ func (p *part) exchange(r *rig.Rig, s *S, f []string) engine.Result {
 		form.Set("code_verifier", pv)
 	}
 	hdr := map[string]string{}
-	ca.apply(r.Core.Cfg, form, hdr)
-	resp := r.Do(p.router, rig.Req("POST", "/oauth/token", form, hdr))
+	owner := ""
+	if k >= 0 {
+		owner = rq.Client
+	}
+	ca.apply(r.Core.Cfg, form, hdr, owner)
+	target := "/oauth/token"
+	switch channel {
+	case "gtq": // grant_type in the URL query, everything else in the body
+		target += "?" + url.Values{"grant_type": form["grant_type"]}.Encode()
+		form.Del("grant_type")
+	case "allq": // every parameter in the URL query, empty form body
+		target += "?" + form.Encode()
+		form = url.Values{}
+	}
+	resp := r.Do(p.router, rig.Req("POST", target, form, hdr))
 
 	obs := obsClass(resp)
 	tokens := obs == "tokens"
+	faulted := fp != nil && fp.fired
 	if tokens && k >= 0 {
 		s.Codes[k].Redeemed = true
 		s.Reqs[s.Codes[k].Req].Gone = true
+	}
+	if faulted {
+		// exactly one storage call of this request failed. Tokens nevertheless: the
+		// request counts like any success (all conjuncts must hold, code redeemed).
+		// An error: nothing is owed, now or later (the request becomes unsure).
+		if !tokens && k >= 0 {
+			s.Reqs[s.Codes[k].Req].Unsure = true
+		}
+		if v.expect == "refuse" {
+			v.rule = "f-" + v.rule
+		} else {
+			v = verdict{expect: "either", rule: "f-x-either-faulted"}
+		}
 	}
 	switch {
 	case v.expect == "refuse" && tokens:
@@ -564,7 +838,7 @@ func (p *part) exchange(r *rig.Rig, s *S, f []string) engine.Result {
 			fmt.Sprintf("fully correct exchange was refused: caller=%s request=%s → %d %s %s", ca.label, describe(rq), resp.Status, clip(resp.Body), resp.Panic))
 	}
 	if tokens && k >= 0 {
-		if field, detail := p.content(r, s, resp, rq); field != "" {
+		if field, detail := p.content(r, s, resp, rq, faulted); field != "" {
 			return engine.Bad(v.rule, "tokens-wrong-content", "C04/token-content/"+rn+"/"+field, detail)
 		}
 	}
@@ -577,11 +851,14 @@ func describe(rq mreq) string {
 
 // content checks that issued tokens carry subject, client, scopes and nonce of
 // the request the code belongs to. Returns the first differing field.
-func (p *part) content(r *rig.Rig, s *S, resp *rig.Resp, rq mreq) (string, string) {
+func (p *part) content(r *rig.Rig, s *S, resp *rig.Resp, rq mreq, faulted bool) (string, string) {
 	body := resp.JSON()
 	wantSub, wantScopes := slotUser[rq.Slot], slotScopes[rq.Slot]
 	// ID token
 	idt, _ := body["id_token"].(string)
+	if idt == "" && faulted {
+		return "", ""
+	}
 	if idt == "" {
 		return "id-token-missing", "openid request but no id_token in the response"
 	}
@@ -612,6 +889,9 @@ func (p *part) content(r *rig.Rig, s *S, resp *rig.Resp, rq mreq) (string, strin
 	}
 	// access token: opaque = sealed "<token id>:<subject>"; the stored token is what introspection reports
 	at, _ := body["access_token"].(string)
+	if at == "" && faulted {
+		return "", "" // a degraded response after a storage failure carries what it carries
+	}
 	if at == "" {
 		return "access-token-missing", "no access_token in the response"
 	}
@@ -699,7 +979,7 @@ func canon(s S) string {
 	reqIdx := map[string]int{}
 	for i, r := range s.Reqs {
 		reqIdx[r.ID] = i
-		fmt.Fprintf(&b, "R%d{%s %s %d %v %v|", i, r.Client, r.Ch, r.Slot, r.Done, r.Gone)
+		fmt.Fprintf(&b, "R%d{%s %s %d %v %v %v|", i, r.Client, r.Ch, r.Slot, r.Done, r.Gone, r.Unsure)
 		if a, ok := s.St.AuthReqs[r.ID]; ok {
 			ch := "-"
 			if a.Challenge != nil {
@@ -734,7 +1014,7 @@ func canon(s S) string {
 			unknown++
 		}
 	}
-	fmt.Fprintf(&b, "U%d", unknown)
+	fmt.Fprintf(&b, "U%d F%d", unknown, s.NF)
 	var toks []string
 	for _, t := range s.St.Tokens {
 		toks = append(toks, fmt.Sprintf("T{%s %s %v %v %v}", t.ClientID, t.Subject, t.Scopes, t.Audience, t.Refresh != ""))
@@ -766,7 +1046,7 @@ func TestCheck(t *testing.T) {
 		parts = append(parts, &part{
 			name: rig.Routers[router], router: router,
 			authClients: []string{"web", "pub", "jwt"}, chs: chs,
-			callers: callersFor("web", "web2", "pub", "jwt", "api", "anon"),
+			callers: callersFor("web", "web2", "pub", "jwt", "jwt+owner", "api", "anon"),
 			maxReqs: engine.Pick(c, 2, 3), maxAlive: 2, maxPerReq: 2, maxCodes: engine.Pick(c, 3, 4), depth: depth,
 		})
 	}
@@ -787,7 +1067,33 @@ func TestCheck(t *testing.T) {
 			})
 		}
 	}
+	// faulty operations: exactly one storage call of a callback / exchange fails
+	kinds := engine.Pick(c, []string{"plain"}, []string{"plain", "deadline"})
+	for router := 0; router < 2; router++ {
+		parts = append(parts, &part{
+			name: rig.Routers[router] + "-fault", router: router,
+			authClients: []string{"web", "pub", "jwt"}, chs: []string{"none", "S256"},
+			callers: callersFor("web/right", "web/wrong", "web2", "pub", "jwt/right", "jwt/wrong"),
+			maxReqs: 2, maxAlive: 2, maxPerReq: 2, maxCodes: engine.Pick(c, 2, 3), depth: engine.Pick(c, 6, 7),
+			maxFaults: engine.Pick(c, 1, 2), kinds: kinds,
+		})
+	}
+	// parameter channel: grant_type / everything in the URL query instead of the body
+	for router := 0; router < 2; router++ {
+		parts = append(parts, &part{
+			name: rig.Routers[router] + "-chan", router: router,
+			authClients: []string{"web", "pub", "jwt"}, chs: []string{"none", "S256"},
+			callers: callersFor("web", "web2", "pub", "jwt", "jwt+owner", "api", "anon"),
+			maxReqs: 2, maxAlive: 2, maxPerReq: 2, maxCodes: engine.Pick(c, 2, 3), depth: engine.Pick(c, 6, 7),
+			chans: []string{"gtq", "allq"},
+		})
+	}
+	fcov := map[string]map[string]int{}
 	for _, p := range parts {
+		p.c, p.fcov = c, map[string]int{}
+		if p.maxFaults > 0 {
+			fcov[p.name] = p.fcov
+		}
 		engine.RunE2(c, engine.E2[S]{
 			Part:      p.name,
 			Init:      S{St: refstore.NewState()},
@@ -798,4 +1104,6 @@ func TestCheck(t *testing.T) {
 			MaxStates: 400000,
 		})
 	}
+	// per fault part: "<C|X> <storage method> <error kind> -> <observed outcome>" -> executions in which that fault fired
+	c.Extra("fault_coverage", fcov)
 }
